@@ -114,6 +114,30 @@ func main() {
 		fatal("usage: vh replay|drive <family> ...; families: %v", fams)
 	}
 	switch os.Args[1] {
+	case "call":
+		// vh call <entry point> <input file>: one call of one entry point in a process of its own (for inputs that may take
+		// the whole process down: the Go runtime cannot recover from a stack overflow)
+		if len(os.Args) != 4 {
+			fatal("usage: vh call <entry point> <input file>")
+		}
+		in, err := os.ReadFile(os.Args[3])
+		if err != nil {
+			fatal("%v", err)
+		}
+		ep := epByName(entryPoints(), os.Args[2])
+		outcome := "value"
+		func() {
+			defer func() {
+				if r := recover(); r != nil {
+					outcome = fmt.Sprintf("panic: %v", r)
+				}
+			}()
+			if err := ep.call(in); err != nil {
+				outcome = "error"
+			}
+		}()
+		fmt.Println("OUTCOME " + outcome)
+		return
 	case "replay":
 		if len(os.Args) != 5 {
 			fatal("usage: vh replay <family> <cases.ndjson> <report.json>")
